@@ -904,6 +904,8 @@ fn cmd_run(property: &str, tier: &str, seed: u64) -> i32 {
     let mut reported = 0usize;
     let mut known_hits = 0usize;
     let mut verified_one = false;
+    let mut replay_attempts = 0usize;
+    let mut unreplayable = 0usize;
     let mut seen_keys: BTreeSet<String> = BTreeSet::new();
     for rf in &violations {
         let key = finding_key(rf);
@@ -923,28 +925,68 @@ fn cmd_run(property: &str, tier: &str, seed: u64) -> i32 {
             "{}-{}-r{}-{}-{}.json",
             property, seed, rf.round, rf.base_run, rf.variant
         ));
-        let shrunk;
-        let rf = if reported < 3 && std::env::var("LEXSIM_NO_SHRINK").is_err() {
-            shrunk = shrink_program(rf);
-            &shrunk
-        } else {
-            rf
+        // Every report is replayed in a fresh process before it is believed. Cascade: (a) the
+        // (minimised) run alone; (b) the same run after the runs that preceded it on this
+        // program in the worker process (behaviour that depends on earlier lexer values:
+        // hidden state outside the lexer struct); (c) the run as found, after the same prelude.
+        if replay_attempts >= 8 {
+            continue;
+        }
+        replay_attempts += 1;
+        let mut alone = rf.clone();
+        alone.prelude.clear();
+        let verified: Option<ReplayFile> = match replay_run(&alone) {
+            Some((true, _)) => {
+                if reported < 3 && std::env::var("LEXSIM_NO_SHRINK").is_err() {
+                    let mut sh = shrink_program(&alone);
+                    sh.prelude.clear();
+                    if verified_one || matches!(replay_run(&sh), Some((true, _))) {
+                        Some(sh)
+                    } else {
+                        Some(alone)
+                    }
+                } else {
+                    Some(alone)
+                }
+            }
+            Some((false, _)) => {
+                let mut with_prelude = rf.clone();
+                with_prelude.note = format!(
+                    "{} | HISTORY-DEPENDENT: reproduces only after the {} preceding run(s) recorded in `prelude` (the lexer's behaviour depends on what other lexer values of the same definition did before)",
+                    with_prelude.note,
+                    with_prelude.prelude.len()
+                );
+                if !rf.prelude.is_empty() && matches!(replay_run(&with_prelude), Some((true, _))) {
+                    Some(with_prelude)
+                } else if let Some(orig) = &rf.original_spec {
+                    let mut as_found = with_prelude.clone();
+                    as_found.spec = orig.clone();
+                    as_found.minimised = false;
+                    if matches!(replay_run(&as_found), Some((true, _))) {
+                        Some(as_found)
+                    } else {
+                        None
+                    }
+                } else {
+                    None
+                }
+            }
+            None => harness_error("the replay crate could not be built or run"),
         };
+        let rf = match &verified {
+            Some(f) => f,
+            None => {
+                unreplayable += 1;
+                println!(
+                    "HARNESS-NOTE: a violation observed in the simulation (key {}, class {:?}) does not reproduce in a fresh process, alone or after its recorded prelude; not reported",
+                    key, rf.class
+                );
+                continue;
+            }
+        };
+        verified_one = true;
         std::fs::write(&path, serde_json::to_string_pretty(rf).unwrap())
             .unwrap_or_else(|e| harness_error(&format!("cannot write replay file: {}", e)));
-        if !verified_one {
-            // every report is replayed once in a fresh process before it is believed
-            verified_one = true;
-            match replay_run(rf) {
-                Some((true, _)) => {}
-                Some((false, v)) => harness_error(&format!(
-                    "violation {} does not replay in a fresh process: {}",
-                    path.display(),
-                    v
-                )),
-                None => harness_error("the replay crate could not be built or run"),
-            }
-        }
         println!(
             "finding key={} class={:?} call={} :: expected {} :: got {} :: {}",
             key, rf.class, rf.call, rf.expected, rf.got, rf.note
@@ -952,6 +994,12 @@ fn cmd_run(property: &str, tier: &str, seed: u64) -> i32 {
         println!("VIOLATION property={} replay={}", property, path.display());
         reported += 1;
         exit = 1;
+    }
+    if exit == 0 && unreplayable > 0 {
+        harness_error(&format!(
+            "{} violation(s) were observed in the simulation but none reproduces in a fresh process",
+            unreplayable
+        ));
     }
     let wall = t0.elapsed().as_secs_f64();
     let probes_unreached: Vec<String> = expected_probes(property)
